@@ -477,3 +477,24 @@ def dump_repo(conn, normfn=None):
         for u, x in ins:
             out.append(('I', u, x))
     return out
+
+
+def enable_query(conn):
+    """Give the mock server a (stub) query engine: 'select * from <class>'
+    returns the instances of the class and its subclasses.  The mock's own
+    ExecQuery provider method always raises CIM_ERR_NOT_SUPPORTED; it is
+    documented as the place where a user plugs in an implementation."""
+    import re as _re
+    from pywbem import CIMError, CIM_ERR_INVALID_QUERY
+    mp = conn._mainprovider  # noqa
+
+    def ExecQuery(namespace, QueryLanguage, Query):
+        m = _re.search(r'\bfrom\s+([A-Za-z_][A-Za-z0-9_]*)', Query or '',
+                       _re.I)
+        if not m:
+            raise CIMError(CIM_ERR_INVALID_QUERY, 'no FROM clause')
+        return mp.EnumerateInstances(namespace, m.group(1), LocalOnly=False,
+                                     DeepInheritance=True)
+    mp.ExecQuery = ExecQuery
+    return conn
+
